@@ -13,6 +13,7 @@ from ..world import snake
 from . import c04, c06, c09
 
 ID = "C17"
+UNKNOWN_REPLY_FIELDS = True      # REST replies of a NEWER server (a field this client does not know) must decode all the same
 HASH_SHARDS = [0, 1]
 
 PROFILE = grammar.profile(
